@@ -33,6 +33,13 @@ func verifEnvInt(name string, def int) int {
 	return def
 }
 
+func verifEnvStr(name, def string) string {
+	if v := os.Getenv(name); v != "" {
+		return v
+	}
+	return def
+}
+
 // verifRNG is a splitmix64 generator: every random choice of a harness derives from VERIF_SEED.
 type verifRNG struct{ s uint64 }
 
